@@ -250,6 +250,17 @@ void harness(void) {
 		V_ASSERT(same, "decode(encode(pw)) = pw padded with NULs");
 	}
 	V_ASSERT(sz == ref_strnlen(pwbuf, PWLEN), "reported length = password length (up to its first NUL)");
+	/* un-hiding IN PLACE (buf == enc_password), the way radius_pkt_verify() restores the attribute
+	 * (added after the seeded change C15-pw-decode-in-place was missed: chain block taken from the already decoded buffer) */
+	{
+		size_t sz2 = 777;
+		r = radius_pkt_attr_password_decode((uint8_t *)IN.auth, enc, ENCLEN, key, KEYLEN, enc, ENCLEN, &sz2);
+		V_ASSERT(r == 0, "in-place un-hiding succeeds");
+		int same2 = 1;
+		for (size_t i = 0; i < ENCLEN; i++) if (enc[i] != ((i < PWLEN) ? pwbuf[i] : 0)) same2 = 0;
+		V_ASSERT(same2, "in-place decode(encode(pw)) = pw padded with NULs");
+		V_ASSERT(sz2 == sz, "in-place: same reported length");
+	}
 	V_ASSERT(!ah_overflow, "harness self-check: abstract hash table large enough");
 	V_WITNESS("password round trip");
 
